@@ -91,6 +91,17 @@ class GetFromAll(Getter):  # noqa
         # we start by unfolding
         search_sids: List[Sid] = unfold_search(search_sid)
 
+        # A sorted search ('>') is resolved once by FindInAll, over all typed searches and sources.
+        # (delegating it would return one "last" per Getter and typed search, instead of one per group)
+        # The data is then fetched for each found Sid, from its configured Getter.
+        if any(ssid.string.count(">") for ssid in search_sids):
+            from spil import FindInAll  # fmt: skip
+            for sid in FindInAll(self.config).find(search_sid, as_sid=True):
+                getter = get_getter(sid, config=self.config)
+                if getter:
+                    yield getter.get_data(sid, attributes=attributes, sid_encode=sid_encode) or {}
+            return
+
         # Dictionary to map a Getter to a list of Sids it should get.
         getter_to_searches: Dict[Getter, List[Sid]] = {}
 
